@@ -110,7 +110,7 @@ pub fn run_c01(rep: &mut Report, thorough: bool, replay: Option<&str>) {
     let _ = replay;
     let mut rng = Rng::new(rep.seed.wrapping_mul(77_003));
     let combos: Vec<u32> = if thorough { (0..128).collect() } else { vec![0, 127, 1, 2, 4, 8, 16, 32, 64, 3, 5, 9, 17, 33, 65, 6, 10, 18, 34, 66, 12, 20, 36, 68, 24, 40, 72, 48, 80, 96, 85, 42] };
-    let rounds = if thorough { 4 } else { 2 };
+    let rounds = if thorough { 24 } else { 2 };
     let mut ci = 0usize;
     for round in 0..rounds {
         for &n in &thread_counts(thorough) {
@@ -186,7 +186,7 @@ pub fn run_c15(rep: &mut Report, thorough: bool) {
     let counts: Vec<usize> = if thorough { vec![1, 2, 3, 4, 5, 6, 7, 9, 16, 24, 32] } else { vec![1, 2, 3, 4, 6, 12, 32] };
     let mut exhaustive_done = 0u64;
     for &n in &counts {
-        let reps = if thorough && n > 6 { 3 } else { 1 };
+        let reps = if thorough { 12 } else { 1 };
         for _ in 0..reps {
             let sentinels = std::cmp::min(n - 1, 6);
             let cfg = TargetCfg { sentinels, max_spinners: 1, heartbeats: 0, sleepers: n - 1 - sentinels, exiters: 0, names: true, regions: 1, elf_files: 0, fds: 0, stack_pages_max: 2, null_sp_threads: 0, big_region_pages: 0 };
@@ -205,7 +205,7 @@ pub fn run_c15(rep: &mut Report, thorough: bool) {
                 (0..(1u64 << n)).collect()
             } else {
                 let mut v = vec![0u64, (1u64 << n) - 1, 1, 1u64 << (n - 1)];
-                for _ in 0..(if thorough { 40 } else { 12 }) {
+                for _ in 0..(if thorough { 60 } else { 12 }) {
                     v.push(rng.next() & ((1u64 << n) - 1));
                 }
                 v
